@@ -279,4 +279,51 @@ theorem pattern_runs (F : Facts11) (hA : F.auxFirst = .insertFront) (hI : F.ifac
   · rw [hreq, serve_eq F hE, hkey, hget]; simp [hf]
 
 
+
+/-! ## WSDL request or RPC -/
+
+theorem isPrefix_iff (a s : Text) : isPrefix a s = true ↔ ∃ t, s = a ++ t := by
+  induction a generalizing s with
+  | nil => simp [isPrefix]
+  | cons x xs ih =>
+    cases s with
+    | nil => simp [isPrefix]
+    | cons y ys =>
+      simp only [isPrefix, Bool.and_eq_true, beq_iff_eq, ih, List.cons_append, List.cons.injEq]
+      constructor
+      · rintro ⟨rfl, t, rfl⟩; exact ⟨t, rfl, rfl⟩
+      · rintro ⟨t, rfl, rfl⟩; exact ⟨rfl, t, rfl⟩
+
+/-- `endsWith` is `str.endswith` -/
+theorem endsWith_iff (s suf : Text) : endsWith s suf = true ↔ ∃ p, s = p ++ suf := by
+  unfold endsWith
+  rw [isPrefix_iff]
+  constructor
+  · rintro ⟨t, h⟩
+    refine ⟨t.reverse, ?_⟩
+    have := congrArg List.reverse h
+    simpa using this
+  · rintro ⟨p, rfl⟩
+    exact ⟨p.reverse, by simp⟩
+
+/-- the WSDL decision under the good facts, spelled out -/
+theorem isWsdlRequest_good (F : Facts11) (hP : F.wsdlPath = .dotWsdlSuffix) (hQ : F.wsdlQuery = .firstName)
+    (hG : F.wsdlGetOnly = true) (verb path query : Text) :
+    isWsdlRequest F verb path query = true ↔
+      verb.map asciiUpper = "GET".toList ∧
+      ((qsFirstName query).map asciiLower = "wsdl".toList ∨ ∃ p, path = p ++ ".wsdl".toList) := by
+  simp only [isWsdlRequest, hP, hQ, hG, if_true, Bool.and_eq_true, Bool.or_eq_true, beq_iff_eq, endsWith_iff]
+
+theorem serveHttp_rpc (F : Facts11) (r : Routes) (tns verb path query : Text)
+    (h : isWsdlRequest F verb path query = false) :
+    serveHttp F r tns verb path query = serve F r tns (httpRequest r verb path) := by
+  simp [serveHttp, h]
+
+theorem serve_ne_wsdl (F : Facts11) (r : Routes) (tns : Text) (q : Request) : serve F r tns q ≠ .wsdl := by
+  unfold serve
+  split
+  · split <;> simp
+  · simp
+
+
 end SpyneModel.Dispatch
